@@ -30,6 +30,9 @@ type Env struct {
 	local func(name string, st *State) (Val, bool)
 	// results of the calls the function makes, by site selector
 	res func(key string, i int) (Val, bool)
+	// shadow: parameter names that loop invariants and sites read at their
+	// current (possibly reassigned) value; old(x) still gives the entry value
+	shadow map[string]bool
 }
 
 var pkgByPath = map[string]*types.Package{}
@@ -75,6 +78,14 @@ func (e *Env) bind(name string, v Val) *Env {
 		n.vars[k] = x
 	}
 	n.vars[name] = v
+	if e.shadow[name] {
+		n.shadow = map[string]bool{}
+		for k := range e.shadow {
+			if k != name {
+				n.shadow[k] = true
+			}
+		}
+	}
 	return &n
 }
 
@@ -209,6 +220,11 @@ func bigLit(n *big.Int) string {
 
 func (e *Env) ident(name string) Val {
 	c := e.c
+	if e.shadow[name] && e.local != nil && e.st != e.old {
+		if v, ok := e.local(name, e.st); ok {
+			return v
+		}
+	}
 	if v, ok := e.vars[name]; ok {
 		return v
 	}
@@ -757,6 +773,14 @@ func (e *Env) call(x *ECall) Val {
 			efail("deref of non-pointer %s", v.GT)
 		}
 		return Val{T: c.load(e.st, c.objLoc(v.T, pt.Elem())), GT: pt.Elem()}
+	case "fresh":
+		// fresh(p): the object p was allocated during the call (old() state's
+		// allocation counter is below it)
+		v := e.eval(x.Args[0])
+		if e.old == nil || v.T.Sort != SInt {
+			efail("fresh() needs a reference and a two-state context")
+		}
+		return Val{T: app(SBool, ">", v.T, e.old.alloc), GT: boolT}
 	case "isnil":
 		v := e.eval(x.Args[0])
 		return Val{T: tEq(v.T, e.coerce(Val{isNil: true}, v).T), GT: boolT}
